@@ -22,7 +22,7 @@ func symPropCodeC14(tag string) int {
 	case 3:
 		return 500
 	}
-	c := vrt.Int(tag + "-code")
+	c := vrt.IntRange(tag + "-code", 100, 999)
 	vrt.Assume(c != 200)
 	return c
 }
